@@ -11,6 +11,7 @@ mod limits;
 mod oracle;
 mod pgram;
 mod robots;
+mod rrt;
 mod scene;
 mod shape;
 mod singular;
@@ -46,6 +47,8 @@ fn main() {
         ("record", "shape") => shape::record(&args[3]),
         ("replay", "yaml") => yaml::replay(&args[3], &args[4]),
         ("replay", "urdf") => urdfx::replay(&args[3], &args[4]),
+        ("replay", "rrt") => rrt::replay(&args[3], &args[4]),
+        ("record", "rrtplan") => rrt::record(&args[3]),
         ("record", "ik") => solver::record(&args[3], &args[4]),
         ("record", "follow") => solver::record_follow(&args[3]),
         _ => {
